@@ -31,7 +31,39 @@ import (
 
 // ---------------------------------------------------------------- goroutine dumps
 
+// the schedule points of the executor (hook sched.VerifExecutorHook): a goroutine for which a hold
+// was registered parks at the named point until the harness lets it go
+var scens sync.Map // *sched.ThreadPoolExecutor -> *scen
+
+func pointHook(e *sched.ThreadPoolExecutor, name string) {
+	v, ok := scens.Load(e)
+	if !ok {
+		return
+	}
+	s := v.(*scen)
+	if atomic.LoadInt32(&s.nholds) == 0 {
+		return
+	}
+	gid := Goid()
+	s.mu.Lock()
+	h := s.holds[gid]
+	s.mu.Unlock()
+	if h != nil && h.point == name {
+		<-h.ch
+	}
+}
+
+type hold struct {
+	point string
+	ch    chan struct{}
+}
+
+func parkedState(st string) bool {
+	return Parked(st) || st == "sync.RWMutex.Lock" || st == "sync.RWMutex.RLock"
+}
+
 const (
+	fHook     = "main.pointHook("
 	fStart    = "sched.(*ThreadPoolExecutor).start("
 	fExecute  = "sched.(*ThreadPoolExecutor).Execute("
 	fShutdown = "sched.(*ThreadPoolExecutor).Shutdown("
@@ -64,11 +96,36 @@ type scen struct {
 	inflight, maxInflight int64
 	workers               map[int]bool // goroutine ids that ran a task
 	work                  int          // > 0: a task body yields this many times (so that overlaps show)
+	nholds                int32
+	holds                 map[int]*hold // goroutine id -> where it is to be held
+	callHold              map[int]*hold // call index -> its hold
+	shutHold              []*hold
 }
 
 func newScen(nw, capacity int, kinds func(int) (int, bool)) *scen {
-	return &scen{ex: sched.NewThreadPoolExecutor(nw, capacity).(*sched.ThreadPoolExecutor),
-		endSeq: map[int]int64{}, runs: map[int]int{}, gates: map[int]chan struct{}{}, kinds: kinds, workers: map[int]bool{}}
+	s := &scen{ex: sched.NewThreadPoolExecutor(nw, capacity).(*sched.ThreadPoolExecutor),
+		endSeq: map[int]int64{}, runs: map[int]int{}, gates: map[int]chan struct{}{}, kinds: kinds, workers: map[int]bool{},
+		holds: map[int]*hold{}, callHold: map[int]*hold{}}
+	scens.Store(s.ex, s)
+	return s
+}
+
+// holdHere registers that the calling goroutine is to be held at the point.
+func (s *scen) holdHere(point string) *hold {
+	h := &hold{point: point, ch: make(chan struct{})}
+	s.mu.Lock()
+	s.holds[Goid()] = h
+	s.mu.Unlock()
+	atomic.AddInt32(&s.nholds, 1)
+	return h
+}
+
+func (h *hold) release() {
+	select {
+	case <-h.ch:
+	default:
+		close(h.ch)
+	}
 }
 
 func (s *scen) gate(t int) chan struct{} {
@@ -186,9 +243,13 @@ func (s *scen) look() (quiescent bool, statuses []int, alive int, shuts []int) {
 		switch {
 		case gid == 0 && len(s.loops) > 0: // not begun; its submitter is tracked below
 			statuses = append(statuses, 5)
-		case gid == 0 || g == nil || !Parked(g.State):
+		case gid == 0 || g == nil || !parkedState(g.State):
 			quiescent = false
 			statuses = append(statuses, 5)
+		case g.State == "chan receive" && strings.Contains(g.Text, fHook):
+			statuses = append(statuses, 6) // held by the harness at "execute.checked"
+		case strings.HasPrefix(g.State, "sync.RWMutex") && strings.Contains(g.Text, fExecute):
+			statuses = append(statuses, 7) // waits for the executor's lock (a Shutdown is waiting for it)
 		case g.State == "chan receive" && strings.Contains(g.Text, fStart):
 			statuses = append(statuses, 4)
 		case g.State == "chan send" && strings.Contains(g.Text, fExecute):
@@ -205,16 +266,20 @@ func (s *scen) look() (quiescent bool, statuses []int, alive int, shuts []int) {
 			shuts = append(shuts, 1)
 			continue
 		}
-		shuts = append(shuts, 0)
 		g := d[gid]
-		if gid == 0 || g == nil || !Parked(g.State) || !strings.Contains(g.Text, fShutdown) {
+		if gid == 0 || g == nil || !parkedState(g.State) || !strings.Contains(g.Text, fShutdown) {
 			quiescent = false
+			shuts = append(shuts, 0)
+		} else if strings.Contains(g.Text, fHook) {
+			shuts = append(shuts, 2) // held by the harness at "shutdown.joined"
+		} else {
+			shuts = append(shuts, 0)
 		}
 	}
 	for _, c := range s.loops {
 		if atomic.LoadInt32(&c.status) == 0 {
 			gid := int(atomic.LoadInt32(&c.gid))
-			if g := d[gid]; gid == 0 || g == nil || !Parked(g.State) {
+			if g := d[gid]; gid == 0 || g == nil || !parkedState(g.State) {
 				quiescent = false
 			}
 		}
@@ -222,7 +287,7 @@ func (s *scen) look() (quiescent bool, statuses []int, alive int, shuts []int) {
 	for _, g := range d {
 		if callg[g.Parent] && strings.Contains(g.Text, fWorker) {
 			alive++
-			if !Parked(g.State) {
+			if !parkedState(g.State) {
 				quiescent = false
 			}
 		}
@@ -295,6 +360,47 @@ func runScript(in Sx) Sx {
 			for j := 1; j < op.Len(); j++ {
 				s.release(op.At(j).AsInt())
 			}
+		case 4: // Execute, held between its state check and the queue send
+			c := &call{}
+			t := len(s.calls)
+			s.calls = append(s.calls, c)
+			ready := make(chan struct{})
+			go func() {
+				h := s.holdHere("execute.checked")
+				s.mu.Lock()
+				s.callHold[t] = h
+				s.mu.Unlock()
+				close(ready)
+				s.execute(c, t)
+			}()
+			<-ready
+		case 5: // let a held Execute go on
+			s.mu.Lock()
+			h := s.callHold[op.At(1).AsInt()]
+			s.mu.Unlock()
+			if h != nil {
+				h.release()
+			}
+		case 6: // Shutdown, held between wg.Wait and close(queue)
+			c := &call{}
+			s.shuts = append(s.shuts, c)
+			ready := make(chan struct{})
+			go func() {
+				h := s.holdHere("shutdown.joined")
+				s.mu.Lock()
+				s.shutHold = append(s.shutHold, h)
+				s.mu.Unlock()
+				close(ready)
+				s.shutdown(c)
+			}()
+			<-ready
+		case 7: // let the held Shutdown(s) go on
+			s.mu.Lock()
+			hs := append([]*hold(nil), s.shutHold...)
+			s.mu.Unlock()
+			for _, h := range hs {
+				h.release()
+			}
 		}
 		ok, st, alive, sh := s.settle(settleLimit)
 		s.mu.Lock()
@@ -315,10 +421,16 @@ func runScript(in Sx) Sx {
 			break
 		}
 	}
-	// clean up whatever can be cleaned up: open all gates, shut down
+	// clean up whatever can be cleaned up: open all gates and holds, shut down
 	for t := 0; t < len(s.calls); t++ {
 		s.release(t)
 	}
+	s.mu.Lock()
+	for _, h := range s.holds {
+		h.release()
+	}
+	s.mu.Unlock()
+	defer scens.Delete(s.ex)
 	go func() { Catch(func() { s.ex.Shutdown() }) }()
 	return ListOf(snaps)
 }
@@ -494,6 +606,31 @@ func genScript(rng *Rng, directed int) Sx {
 		}
 		nexec++
 	}
+	if directed == 3 {
+		// an Execute is past its state check when Shutdown begins; it sends after the workers have gone
+		nw = rng.PickInt(1, 1, 2)
+		capacity = rng.Range(1, 4)
+		pre := rng.Intn(capacity)
+		for j := 0; j < pre; j++ {
+			addExec(rng.PickInt(0, 1, 2), false)
+		}
+		ops = append(ops, Ints(4))
+		kinds = append(kinds, List(Int(0), Bool(false)))
+		held := nexec
+		nexec++
+		switch rng.Intn(3) {
+		case 0: // Shutdown held before close(queue): the late send finds room in the buffer
+			ops = append(ops, Ints(6), Ints(5, int64(held)), Ints(7))
+		case 1: // Shutdown runs to its end, then the send
+			ops = append(ops, Ints(2), Ints(5, int64(held)))
+		default:
+			ops = append(ops, Ints(6), Ints(7), Ints(5, int64(held)))
+		}
+		if rng.Bool() {
+			ops = append(ops, Ints(2))
+		}
+		return List(Int(0), Int(int64(nw)), Int(int64(capacity)), ListOf(kinds), ListOf(ops))
+	}
 	if directed == 2 {
 		// all workers busy, queue loaded, Shutdown, then all workers are let go at the same moment:
 		// several workers drain the queue together
@@ -532,10 +669,30 @@ func genScript(rng *Rng, directed int) Sx {
 	n := rng.Range(1, 12)
 	shutAt := rng.Range(0, n+2)
 	shut := 0
+	var heldExec []int
 	for i := 0; i < n; i++ {
 		if i == shutAt {
 			ops = append(ops, Ints(2))
 			shut++
+		}
+		if rng.Chance(1, 8) { // goroutines held at the executor's schedule points
+			switch j := rng.Intn(4); {
+			case j == 0:
+				ops = append(ops, Ints(4))
+				kinds = append(kinds, List(Int(int64(rng.PickInt(0, 1, 2))), Bool(false)))
+				heldExec = append(heldExec, nexec)
+				nexec++
+			case j == 1 && len(heldExec) > 0:
+				x := rng.Intn(len(heldExec))
+				ops = append(ops, Ints(5, int64(heldExec[x])))
+				heldExec = append(heldExec[:x], heldExec[x+1:]...)
+			case j == 2:
+				ops = append(ops, Ints(6))
+				shut++
+			default:
+				ops = append(ops, Ints(7))
+			}
+			continue
 		}
 		switch k := rng.Intn(10); {
 		case k < 6 || len(gatedOpen) == 0:
@@ -553,6 +710,10 @@ func genScript(rng *Rng, directed int) Sx {
 	if rng.Bool() {
 		ops = append(ops, Ints(2))
 	}
+	for _, t := range heldExec {
+		ops = append(ops, Ints(5, int64(t)))
+	}
+	ops = append(ops, Ints(7))
 	for _, t := range gatedOpen {
 		ops = append(ops, Ints(1, int64(t)))
 	}
@@ -600,6 +761,16 @@ func nontrivial(in Sx) bool {
 	return in.At(3).AsInt()*in.At(4).AsInt() >= 1
 }
 
+var nInconclusive int
+
+func inconclusiveObs(in, obs Sx) bool {
+	if in.At(0).AsInt() == 0 {
+		n := obs.Len()
+		return n > 0 && !obs.At(n-1).At(0).AsBool()
+	}
+	return obs.At(4).At(2).AsBool()
+}
+
 func gen(a Args, out *Out) {
 	rng := NewRng(a.Seed)
 	nscript, ndir, nconc, nrace, nfresh := 220, 24, 60, 40, 400
@@ -612,7 +783,16 @@ func gen(a Args, out *Out) {
 			return
 		}
 		obs := run(in)
+		// a scenario that could not be brought to rest within the settle budget is run again (twice at
+		// most); what is still inconclusive then is recorded as such and never raises an alarm
+		for try := 0; try < 2 && inconclusiveObs(in, obs); try++ {
+			out.Count("inconclusive:retried")
+			obs = run(in)
+		}
 		out.Case(kind, nontrivial(in), in, obs)
+		if inconclusiveObs(in, obs) {
+			nInconclusive++
+		}
 		if in.At(0).AsInt() == 0 {
 			out.Count("script:nw=" + strconv.Itoa(in.At(1).AsInt()))
 			out.Count("script:cap=" + strconv.Itoa(in.At(2).AsInt()))
@@ -654,6 +834,7 @@ func gen(a Args, out *Out) {
 	for i := 0; i < ndir; i++ {
 		emit("drain", genScript(r1, 1))
 		emit("drain", genScript(r1, 2))
+		emit("late", genScript(r1, 3))
 	}
 	r5 := rng.Fork()
 	for i := 0; i < nfresh; i++ {
@@ -668,10 +849,12 @@ func gen(a Args, out *Out) {
 	for i := 0; i < nconc; i++ {
 		emit("conc", genConc(r4, false))
 	}
+	out.CountN("inconclusive:total (scenarios not evaluated)", nInconclusive)
 	out.Note("goroutines at exit: %d", runtime.NumGoroutine())
 }
 
 func main() {
+	sched.VerifExecutorHook = pointHook
 	log.SetOutput(io.Discard)
 	if f, err := os.OpenFile(os.DevNull, os.O_WRONLY, 0); err == nil {
 		os.Stderr = f // debug.CatchPanic prints a traceback per recovered panic
